@@ -33,7 +33,7 @@ fn(A + '.stringify:RepeaterNumber', props=['C02'],
 M = 'emmet.markup'
 cls(A + '.convert:Abbreviation', fields={'type': 'str', 'children': 'list[AbbreviationNode]'})
 cls(A + '.convert:AbbreviationNode',
-    fields={'type': 'str', 'name': 'str|None', 'value': 'list[str|Field]|None', 'repeat': 'any', 'attributes': 'any',
+    fields={'type': 'str', 'name': 'str|None', 'value': 'list[str|Field]|None', 'repeat': 'Repeater|None', 'attributes': 'any',
             'children': 'list[AbbreviationNode]', 'self_closing': 'any'})
 cls('emmet.config:Config',
     fields={'type': 'any', 'syntax': 'any', 'variables': 'map', 'snippets': 'map', 'options': 'map',
